@@ -348,6 +348,22 @@ func c01Pusher(p *P, r *R, f *ssa.Function) {
 		}
 		r.ob("R01.5", fn+": pushed slot is reset before the tail CAS (never after)", p.ipos(cas), okReset, true,
 			"a reset after the CAS would erase a link a concurrent pusher already hung on this slot")
+		// the reset really drops the slot's own stale link: on every path with a header, the flag byte is cleared
+		for _, ri := range findInstrs(f, p.mCall("(*bufferSlice).reset")) {
+			g := p.localCallee(ri)
+			if g == nil {
+				continue
+			}
+			isHdr := func(v ssa.Value) bool { return isLoadOf(v, "bufferSlice.bufferHeader") }
+			clr := p.mCall("(bufferHeader).clearFlag")
+			res := p.mustPass(g, []Point{{g.Blocks[0], -1}}, func(in ssa.Instruction) bool { return p.evMust(in, clr, 1) },
+				func(b *ssa.BasicBlock, i int) bool {
+					ifi := blockIf(b)
+					return ifi == nil || relOn(ifi.Cond, i == 0, isHdr, isNilConst) != "=="
+				}, nil)
+			r.ob("R01.5", p.fname(g)+": resetting a shared-memory slice clears its stale hasNext link", p.pos(g.Pos()), res.OK, true,
+				"a recycled slice that keeps hasNext+next of its former chain makes a popper follow the stale link into a buffer that is still held: %s", p.pathString(res))
+		}
 
 		links := findInstrs(f, p.mCall("(bufferHeader).linkNext"))
 		okLink := len(links) > 0
